@@ -26,7 +26,7 @@ class Sub:
     is given."""
 
     def __init__(self, name, check, strategy=None, enumerate=None, quick=0,
-                 thorough=0, shards=NPROC, min_share=None, note=""):
+                 thorough=0, shards=NPROC, min_share=None, note="", shrink=True):
         self.name = name
         self.check = check
         self.strategy = strategy
@@ -36,6 +36,7 @@ class Sub:
         self.shards = shards
         self.min_share = min_share or {}
         self.note = note
+        self.shrink = shrink
 
     def budget(self, tier):
         n = self.thorough if tier == "thorough" else self.quick
@@ -58,11 +59,16 @@ def _run_hypothesis_shard(sub, tier, seed, shard, n_cases):
     last = {}
     failures = []
 
+    seen = []
+
     def body(case):
         last["case"] = case
         rec.evaluations += 1
         try:
             info = sub.check(case)
+        except PropertyViolation as exc:
+            seen.append((len(canon(case)), exc, case))
+            raise
         finally:
             env.clean_proc_tmp()
         rec.record(case, info)
@@ -72,13 +78,22 @@ def _run_hypothesis_shard(sub, tier, seed, shard, n_cases):
                     derandomize=False, report_multiple_bugs=False,
                     print_blob=False,
                     suppress_health_check=list(HealthCheck),
-                    phases=[Phase.explicit, Phase.generate, Phase.target, Phase.shrink])(test)
+                    phases=([Phase.explicit, Phase.generate, Phase.target, Phase.shrink] if sub.shrink
+                            else [Phase.explicit, Phase.generate, Phase.target]))(test)
     test = hypothesis.seed(_sub_seed(seed, sub.name, shard))(test)
     try:
         test()
     except PropertyViolation as exc:
         failures.append({"cls": exc.cls, "clause": exc.clause,
                          "message": exc.message, "case": json.loads(canon(last["case"]))})
+    except BaseException:
+        # e.g. Hypothesis' Flaky error when a violation depends on a random hash seed of a
+        # sub-process: the violation was observed, report the smallest case that showed it
+        if not seen:
+            raise
+        _, exc, case = min(seen, key=lambda t: t[0])
+        failures.append({"cls": exc.cls, "clause": exc.clause,
+                         "message": exc.message, "case": json.loads(canon(case))})
     return rec, failures
 
 
@@ -114,6 +129,7 @@ def _run_enum_shard(sub, tier, seed, shard, nshards):
 
 def _worker(task):
     mod_name, sub_name, tier, seed, shard, nshards, n_cases = task
+    os.environ["VERIF_TIER_CURRENT"] = tier
     try:
         mod = importlib.import_module(mod_name)
         sub = [s for s in mod.SUBCHECKS if s.name == sub_name][0]
